@@ -1,5 +1,6 @@
 import OnlVerif.Kernel.Replay
 import OnlVerif.Net.FifoReplay
+import OnlVerif.Net.GenSinkReplay
 /-! Line-protocol driver: `driver <mode>` reads cases on stdin and prints the model's observations. -/
 
 def main (args : List String) : IO UInt32 := do
@@ -7,4 +8,5 @@ def main (args : List String) : IO UInt32 := do
   match args with
   | ["kernel"] => kernelLoop stdin {}; return 0
   | ["fifo"] => fifoLoop stdin; return 0
+  | ["gensink"] => gensinkLoop stdin; return 0
   | _ => IO.eprintln "usage: driver <kernel>"; return 2
